@@ -572,6 +572,31 @@ theorem additive_introspection (ex ad : List Str) (hne : ∀ x ∈ ad, x ≠ [])
     simp [catPre, catMid1]; omega
   rw [e, this, splitAlts_alts ad hne]
 
+/-- **The UI route.** What `build_commands` publishes for a command with a numeric pattern — the command
+    description's unit list and, when the command is paired with a process value, that reading's unit list — is
+    the list the pattern was built from, whatever the unit of the paired tag is (compatible, incompatible, none). -/
+theorem published_units_are_pattern_units (units : List Str) (nn io : Bool) (hne : ∀ u ∈ units, u ≠ [])
+    (hu : units ≠ []) (tagUnits : List Str) (dflt : Option (List Str)) :
+    publishedUnits tagUnits (buildNumber units nn io) = some units ∧
+    readingUnits dflt (buildNumber units nn io) = some (some units) ∧
+    publishedUnits tagUnits (buildNumberOptional units nn io) = some units ∧
+    readingUnits dflt (buildNumberOptional units nn io) = some (some units) := by
+  obtain ⟨h1, h2⟩ := units_introspection units nn io hne
+  have key : ∀ regex : Str, getUnits regex = some units → (namedGroups regex).contains nameUnit = true := by
+    intro regex h
+    cases hc : (namedGroups regex).contains nameUnit with
+    | true => rfl
+    | false =>
+      simp only [getUnits, hc, Bool.not_false, if_true, Option.some.injEq] at h
+      exact absurd h.symm hu
+  have k1 := key _ h1
+  have k2 := key _ h2
+  simp only [publishedUnits, readingUnits, k1, k2, if_true, h1, h2, Option.map_some, and_self]
+
+/-- Without declared units nothing is derived from the pattern: the description falls back to the paired tag. -/
+example : publishedUnits [['k', 'g'], ['g']] (buildNumber [] false false) = some [['k', 'g'], ['g']] := by
+  decide +kernel
+
 /-- A numeric pattern yields no options. -/
 theorem number_pattern_has_no_options (nn io : Bool) :
     getExclusive (buildNumber [] nn io) = some [] ∧ getAdditive (buildNumber [] nn io) = some [] := by
